@@ -385,7 +385,13 @@ def builtin_value(fr, name, args, kw, n):
     if name in ('any', 'all') and a0 is not None and a0[0] in ('list', 'tuple') and len(args) == 1 and not kw:
         ts = [fr.fold(x) for x in a0[1]]
         return T.or_(ts) if name == 'any' else T.and_(ts)         # any / all over an explicit sequence of conditions
+    if name == 'slice' and 1 <= len(args) <= 3 and not kw:
+        lo, hi, st = (NONE, args[0], NONE) if len(args) == 1 else (args[0], args[1], args[2] if len(args) == 3 else NONE)
+        return ('sl', lo, hi, st)                   # a slice object: x[slice(a, b)] is x[a:b]
     if name == 'len' and a0 is not None:
+        if a0[0] == 'call' and a0[1] == 'shape' and len(a0[2]) == 1 and not a0[3]:
+            # len(x.shape) is x.ndim
+            return fr.ctx.facts.get(('ndim', a0[2][0]), ('ndim', a0[2][0]))
         return length(a0)
     if name == 'int' and a0 is not None:
         if T.is_int(a0):
